@@ -61,7 +61,7 @@ def run(chk):
     chk.assume('pattern validity is delegated to stix2patterns (assumed)', 'custom property names are checked for their first character only: known finding (reachable only with customisation allowed)')
     lexical_part(chk, 'C02')
     cs = [K.validate_type_contract(), K.integer_clean_contract(), K.hashes_clean_contract(), K.list_clean_contract(), K.reference_clean_contract()] + [K.order_contract(*row) for row in K.ORDER_TABLE] + KC.all_contracts() + \
-         [K.enum_clean_contract(), K.hex_clean_contract(), K.dictionary_clean_contract(), K.float_clean_contract(), K.extensions_clean_contract(), KPI.init_prefix_contract()]
+         [K.enum_clean_contract(), K.hex_clean_contract(), K.dictionary_clean_contract(), K.float_clean_contract(), K.observable_clean_contract(), K.extensions_clean_contract(), KPI.init_prefix_contract()]
     for c in cs:
         chk.prove(c); chk.canary(c)
     from vf.callsites import purity_obligations
